@@ -538,6 +538,96 @@ class Borrow:
             uniq.setdefault(k, fd)
         return list(uniq.values()), sorted(vvars)
 
+    # -- B8: hashing a key into a dictionary that is only borrowed ---------------
+    def hashes_into_param(self):
+        """{(function, param index)}: the static function hands that parameter
+        to a key-hashing dictionary API (directly or through another such
+        function) without owning it first (no Py_INCREF of the parameter that
+        dominates the call)"""
+        memo = getattr(self, '_hip', None)
+        if memo is not None:
+            return memo
+        out = set()
+        changed = True
+        while changed:
+            changed = False
+            for fname, f in self.u.funcs.items():
+                params = [p for p, _t in f.params]
+                g = ccfg(f)
+                for i, pn in enumerate(params):
+                    if (fname, i) in out:
+                        continue
+                    for n in g.nodes:
+                        hit = False
+                        for c in node_calls(n):
+                            name = c.a[0]
+                            if not isinstance(name, str) or not c.a[1]:
+                                continue
+                            for j, a in enumerate(c.a[1]):
+                                if not is_var(a, pn):
+                                    continue
+                                if (name in HASHES_KEY and j == 0) or (name, j) in out:
+                                    hit = True
+                        if not hit:
+                            continue
+                        # owned if every path from entry to n passes Py_INCREF(pn)
+                        def inc(m, pn=pn):
+                            return any(is_var(c.a[1][0], pn) for c in
+                                       node_calls(m, 'Py_INCREF') + node_calls(m, 'Py_XINCREF')
+                                       if c.a[1])
+                        reach = g.reach(g.entry, avoid=inc)
+                        if n.id in reach or n is g.entry:
+                            out.add((fname, i))
+                            changed = True
+                            break
+        self._hip = out
+        return out
+
+    def hash_into_borrowed(self, fname):
+        """calls in fname that hash a key into a dictionary the function does
+        not own: a volatile field of self, or a local still borrowed out of
+        volatile state (no Py_INCREF since it was fetched)"""
+        f = self.u.func(fname)
+        g = ccfg(f)
+        hip = self.hashes_into_param()
+        fs, vvars = self.analyse(fname)
+        # unprotected region per volatile-borrowed local (as in analyse)
+        unprot = {}
+        for var in vvars:
+            ids = set()
+            for d in g.nodes:
+                if var in c_assigned(d) and self.borrowed_volatile_def(c_assigned(d)[var], set(vvars)):
+                    def stop(n, var=var, d=d):
+                        if n is d:
+                            return False
+                        if var in c_assigned(n):
+                            return True
+                        return any(is_var(c.a[1][0], var) for c in
+                                   node_calls(n, 'Py_INCREF') + node_calls(n, 'Py_XINCREF') if c.a[1])
+                    ids |= set(g.reach(d, avoid=stop))
+            unprot[var] = ids
+        out = []
+        for n in g.nodes:
+            for c in node_calls(n):
+                name = c.a[0]
+                if not isinstance(name, str) or not c.a[1]:
+                    continue
+                for j, a in enumerate(c.a[1]):
+                    if not ((name in HASHES_KEY and j == 0) or (name, j) in hip):
+                        continue
+                    if a is None:
+                        continue
+                    if a.k == 'field' and a.a[1] in self.vol:
+                        out.append(dict(fn=fname, dict_expr='self->' + a.a[1], call=show(c)[:90],
+                                        line=n.line, how='volatile field passed unowned'))
+                    elif a.k == 'var' and a.a[0] in vvars and n.id in unprot.get(a.a[0], ()):
+                        out.append(dict(fn=fname, dict_expr=a.a[0], call=show(c)[:90], line=n.line,
+                                        how='local borrowed out of the caches, not yet owned'))
+        uniq = {}
+        for o in out:
+            uniq.setdefault((o['fn'], o['dict_expr'], o['call']), o)
+        return list(uniq.values())
+
     def callbacks(self, node, exclude_var=None):
         out = []
         for c in node_calls(node):
